@@ -98,7 +98,7 @@ def _job(job):
         pa, pb = files[intype]
         argv = [pa, pb if differ else pa, '--no-status', f'--from-{intype}', f'--to-{intype}', '--format', fmt] + mode + style + cond
         rc, out, err, exc = gt.run_cli(argv)
-        if style == ['--color']:
+        if '--color' in style:
             import colorama
             colorama.deinit()
         if exc is not None:
@@ -156,16 +156,17 @@ def replay(entry, repo_root):
 
 def bounded(tier, seed, repo_root):
     modes = [[], ['-e'], ['-d']]
-    styles = [['--no-color'], ['--color'], ['--html']]
+    styles = [['--no-color'], ['--color'], ['--html'], ['--color', '--html']]      # (HTML output with colour forced on)
     conds = [[], ['-j']]
     jobs = [(i, f, m, s, c, d) for i in TYPES for f in TYPES for m in modes for s in styles for c in conds for d in (True, False)]
-    rich = [(i, f, m, ['--no-color'], [], d, 1) for i in TYPES for f in TYPES for m in modes for d in (True, False)]
+    rich = [(i, f, m, st, [], d, 1) for i in TYPES for f in TYPES for m in modes for d in (True, False)
+            for st in (['--no-color'], ['--color', '--html'])]
     rich += [(i, f, m, ['--no-color'], [], d, 2) for i in ('json', 'json5', 'yaml', 'pickle') for f in TYPES for m in modes for d in (True, False)]
     rich += [('pickle', f, m, ['--no-color'], [], d, 3) for f in TYPES for m in modes for d in (True, False)]
     jobs += rich
     fails = [f for fs in pmap(_job, jobs, repo_root, chunksize=8, job_timeout=60, on_timeout=timeout_failure('C13')) for f in fs]
     return [{
-        'name': 'C13.configuration-matrix', 'bound': f"{len(TYPES)} input types x {len(TYPES)} output formats x 3 modes x 3 styles x 2 "
+        'name': 'C13.configuration-matrix', 'bound': f"{len(TYPES)} input types x {len(TYPES)} output formats x 3 modes x 4 styles x 2 "
         f"(condensed) x 2 (equal / different documents) = {len(jobs) - len(rich)} runs of main() on one plain document pair per type, plus {len(rich)} runs (types x formats x modes x equal/different) "
         f"on a second pair per type with every scalar kind, empty/nested containers, non-ASCII text and non-string mapping keys (YAML, pickle), a third pair containing null (json, json5, yaml, pickle) and a fourth with bytes values (pickle)",
         'evaluations': len(jobs), 'distinct_nontrivial': len(jobs), 'exhaustive': True,
